@@ -314,12 +314,14 @@ def all_variants():
     out.append({"kind": "print_config", "flags": "comments"})
     out.append({"kind": "save", "format": "yaml"})
     out.append({"kind": "save", "format": "json"})
+    # histories of --print_config requests on one parser object (last: the flags of one request must not reach the next)
+    out.append({"kind": "print_config_history", "seq": ["skip_null", "", "skip_default"]})
     return out
 
 
 def variant_format(variant):
     """text family the variant writes: 'yaml' or 'json'"""
-    if variant["kind"] == "print_config":
+    if variant["kind"] in ("print_config", "print_config_history"):
         return "yaml"
     return "json" if variant["format"].startswith("json") else "yaml"
 
@@ -368,9 +370,11 @@ def run_variant(p, cfg0, ref, variant, case, tmpdir):
                 back = p.parse_string(text)
             except ArgumentError as ex:
                 return {"stage": "reparse", "error": excname(ex), "detail": str(ex)[:300], "text": text[:600]}
-        elif kind == "print_config":
+        elif kind in ("print_config", "print_config_history"):
             if has_marker(case["obj"]):
                 raise Skip("object-valued input has no command-line spelling")
+            if kind == "print_config_history" and not any(x is None for x in leaves(cfg0)):
+                raise Skip("skip_null is the only lossy flag and only touches null entries: no null in this configuration")
             argv = to_argv(case["spec"], case["obj"])
             try:
                 again = p.parse_args(argv)
@@ -378,27 +382,40 @@ def run_variant(p, cfg0, ref, variant, case, tmpdir):
                 raise Skip("argv rejected") from ex
             if canon(again) != ref:
                 raise Skip("argv gives another configuration")
-            flag = "--print_config" + ("=" + variant["flags"] if variant["flags"] else "")
-            buf = io.StringIO()
-            try:
-                with contextlib.redirect_stdout(buf):
-                    p.parse_args(argv + [flag])
-                return {"stage": "dump", "error": "NoExit", "detail": "--print_config did not exit"}
-            except SystemExit as ex:
-                if ex.code not in (0, None):
-                    return {"stage": "dump", "error": "Exit%s" % ex.code, "detail": buf.getvalue()[:300]}
-            except Exception as ex:  # noqa: BLE001
-                if hasattr(p, "print_config"):
-                    delattr(p, "print_config")
-                return {"stage": "dump", "error": excname(ex), "detail": str(ex)[:300]}
-            text = buf.getvalue()
-            path = os.path.join(tmpdir, "pc.yaml")
-            with open(path, "w", encoding="utf-8", newline="") as f:
-                f.write(text)
-            try:
-                back = p.parse_args(["--cfg", path])
-            except ArgumentError as ex:
-                return {"stage": "reparse", "error": excname(ex), "detail": str(ex)[:300], "text": text[:600]}
+            # a history on ONE parser object: several --print_config requests with different flags; every request whose
+            # flags are lossless (nulls kept) must print a text that re-parses to the configuration
+            seq = [variant["flags"]] if kind == "print_config" else list(variant["seq"])
+            back = None
+            for step, flags in enumerate(seq):
+                flag = "--print_config" + ("=" + flags if flags else "")
+                where = "" if kind == "print_config" else " (request %d of the history %r on one parser)" % (step + 1, seq)
+                buf = io.StringIO()
+                try:
+                    with contextlib.redirect_stdout(buf):
+                        p.parse_args(argv + [flag])
+                    return {"stage": "dump", "error": "NoExit", "detail": "--print_config did not exit" + where}
+                except SystemExit as ex:
+                    if ex.code not in (0, None):
+                        return {"stage": "dump", "error": "Exit%s" % ex.code, "detail": buf.getvalue()[:300] + where}
+                except Exception as ex:  # noqa: BLE001
+                    if hasattr(p, "print_config"):
+                        delattr(p, "print_config")
+                    return {"stage": "dump", "error": excname(ex), "detail": str(ex)[:300] + where}
+                if "skip_null" in flags:
+                    continue          # documented as lossy: nothing to compare, it only is part of the history
+                text = buf.getvalue()
+                path = os.path.join(tmpdir, "pc%d.yaml" % step)
+                with open(path, "w", encoding="utf-8", newline="") as f:
+                    f.write(text)
+                try:
+                    back = p.parse_args(["--cfg", path])
+                except ArgumentError as ex:
+                    return {"stage": "reparse", "error": excname(ex), "detail": str(ex)[:300] + where, "text": text[:600]}
+                got = canon(back)
+                if got != ref:
+                    return {"stage": "compare", "error": "Different", "detail": first_diff(ref, got) + where, "text": text[:600]}
+            if back is None:
+                return None
         elif kind == "save":
             path = os.path.join(tmpdir, "saved." + ("json" if variant["format"] == "json" else "yaml"))
             try:
@@ -547,7 +564,7 @@ def _dict_leaf_pairs(t, value, default):
 
 
 def sig_skip_default_dict_leaf(arg, value, default, variant):
-    sd = variant.get("skip_default") or "skip_default" in variant.get("flags", "")
+    sd = variant.get("skip_default") or "skip_default" in variant.get("flags", "") or any("skip_default" in f for f in variant.get("seq", []))
     return bool(sd) and any(_shares_entry(_plain_keys(v), _plain_keys(d)) for v, d in _dict_leaf_pairs(arg["type"], value, default))
 
 
@@ -774,7 +791,7 @@ def sig_union_serialisation(arg, value, default, variant):
 def sig_skip_default_equal_other_type(arg, value, default, variant):
     """_dump_delete_default_entries compares with ==: 1 == True == 1.0, -0.0 == 0.0; the entry is dropped and the
     default (of another type / sign) comes back"""
-    sd = variant.get("skip_default") or "skip_default" in variant.get("flags", "")
+    sd = variant.get("skip_default") or "skip_default" in variant.get("flags", "") or any("skip_default" in f for f in variant.get("seq", []))
     if not sd:
         return False
     for v, d in _dict_leaf_pairs(arg["type"], value, default):
